@@ -48,6 +48,12 @@ inline Mesh subdivide_sphere(const Mesh& in, const std::string& name) {
     for (size_t i = 0; i < in.nf(); i++) { unsigned a = in.tri[3*i], b = in.tri[3*i+1], c = in.tri[3*i+2]; unsigned ab = midpoint(a, b), bc = midpoint(b, c), ca = midpoint(c, a);
         m.tri.insert(m.tri.end(), {a, ab, ca, b, bc, ab, c, ca, bc, ab, bc, ca}); }
     return m; }
+// 1-to-4 subdivision keeping the midpoints where they are (flat faces stay flat)
+inline Mesh subdivide_flat(const Mesh& in, const std::string& name) {
+    Mesh m; m.name = name; m.pos = in.pos; std::map<std::pair<unsigned, unsigned>, unsigned> mid;
+    auto midpoint = [&](unsigned a, unsigned b) { auto k = std::minmax(a, b); auto it = mid.find(k); if (it != mid.end()) return it->second; unsigned id = m.pos.size() / 3; for (int j = 0; j < 3; j++) m.pos.push_back((m.pos[3*a+j] + m.pos[3*b+j]) / 2); mid[k] = id; return id; };
+    for (size_t i = 0; i < in.nf(); i++) { unsigned a = in.tri[3*i], b = in.tri[3*i+1], c = in.tri[3*i+2]; unsigned ab = midpoint(a, b), bc = midpoint(b, c), ca = midpoint(c, a); m.tri.insert(m.tri.end(), {a, ab, ca, b, bc, ab, c, ca, bc, ab, bc, ca}); }
+    return m; }
 inline Mesh icosphere(int level) { Mesh m = icosahedron(); for (size_t i = 0; i < m.nv(); i++) { double n = std::sqrt(m.pos[3*i]*m.pos[3*i] + m.pos[3*i+1]*m.pos[3*i+1] + m.pos[3*i+2]*m.pos[3*i+2]); for (int k = 0; k < 3; k++) m.pos[3*i+k] /= n; }
     for (int l = 0; l < level; l++) m = subdivide_sphere(m, ""); m.name = "icosphere" + std::to_string(m.nv()); return m; }
 
